@@ -567,6 +567,7 @@ type gor struct {
 }
 
 var reHead = regexp.MustCompile(`^goroutine (\d+) \[([^\],]+)`)
+var reGor = regexp.MustCompile(`goroutine \d+`)
 
 func dumpAll() []gor {
 	buf := make([]byte, 1<<20)
@@ -958,6 +959,12 @@ func decide(c *Case, logf func(string, ...any)) (msg string, res result, err err
 	res, err = execute(*c)
 	if err != nil || res.verdict == "" {
 		return "", res, err
+	}
+	if os.Getenv("VERIF_C27_DEV_SURVEY") != "" {
+		// development only: list failures without confirmation and go on
+		cj, _ := json.Marshal(c)
+		fmt.Printf("SURVEY %s\n  parked: %s\n  case: %s\n", res.verdict, reGor.ReplaceAllString(strings.Join(res.obs.Parked, " | "), "g"), cj)
+		return "", res, nil
 	}
 	first := res
 	inconclusive := func(why string) (string, result, error) {
